@@ -16,6 +16,7 @@ import (
 	"github.com/0xReLogic/Helios/internal/config"
 	"github.com/0xReLogic/Helios/internal/loadbalancer"
 	vh "github.com/0xReLogic/Helios/internal/verifh"
+	"github.com/0xReLogic/Helios/internal/vhook"
 )
 
 // C20: WebSocket tunnelling and the connection pool.
@@ -976,6 +977,64 @@ func init() {
 			}
 			if c.Idx == 0 {
 				o.Sample(map[string]any{"part": "pool-concurrent", "case": c, "operations": len(hist), "checker": "porcupine v1.3.0, bag per backend with capacity max_idle"})
+			}
+		})
+}
+
+// ---- time passing inside Get (a hook delay between the pool lookup and the backend lock, where a real Get may wait
+// for the lock): whatever Get hands out has not been idle for longer than idle_timeout at that moment
+func init() {
+	type c20Delay struct {
+		IdleS int `json:"idle_before_get_s"`
+		GapS  int `json:"delay_inside_get_s"`
+	}
+	vh.AddPart("C20", "pool-delays", "sim", vh.Opts{NoConfirm: true, Shards: 4, TimeoutS: 200},
+		func(e *vh.Env) []c20Delay {
+			var cs []c20Delay
+			for _, idle := range []int{0, 10, 30, 59, 61} {
+				for _, gap := range []int{0, 1, 2, 31, 61, 200} {
+					cs = append(cs, c20Delay{idle, gap})
+				}
+			}
+			return cs
+		},
+		func(e *vh.Env, c c20Delay, o *vh.Out) {
+			o.Need("gets_with_delay", "stale_conns_withheld", "fresh_conns_returned")
+			pool := loadbalancer.NewWebSocketPool(3, 8, c20Idle)
+			defer pool.Shutdown()
+			f := &fakeConn{id: 1}
+			if !pool.Put("b0", f) {
+				o.Inconcl("Put refused")
+				return
+			}
+			put := time.Now()
+			time.Sleep(time.Duration(c.IdleS) * time.Second)
+			vhook.Set(func(pt string) {
+				if pt == "ws.get.gap" {
+					time.Sleep(time.Duration(c.GapS) * time.Second)
+				}
+			})
+			got := pool.Get("b0")
+			vhook.Set(nil)
+			age := time.Since(put)
+			o.Eval(1)
+			o.Distinct(vh.J(c))
+			o.Obs("gets_with_delay", 1)
+			switch {
+			case got != nil && age > c20Idle:
+				o.Viol("C20|pool|stale-conn-handed-out", fmt.Sprintf("a connection put %v ago (idle_timeout %v; %d s idle, then Get spent %d s between the lookup and the backend lock) was handed out", age, c20Idle, c.IdleS, c.GapS), nil)
+			case got == nil && age < c20Idle:
+				o.Viol("C20|pool|fresh-conn-withheld", fmt.Sprintf("a connection put %v ago (idle_timeout %v) was not handed out", age, c20Idle), nil)
+			case got == nil:
+				o.Obs("stale_conns_withheld", 1)
+				if !f.isClosed() {
+					o.Viol("C20|pool|stale-conn-not-closed", fmt.Sprintf("a connection idle for %v was withheld but not closed", age), nil)
+				}
+			default:
+				o.Obs("fresh_conns_returned", 1)
+			}
+			if c.IdleS == 30 && c.GapS == 31 {
+				o.Sample(map[string]any{"part": "pool-delays", "case": c, "age_at_return": age.String(), "handed_out": got != nil})
 			}
 		})
 }
